@@ -19,6 +19,7 @@ B(s) == s   \* tokens given as strings are exported as strings; binary tokens as
 Formats == [
   manifest |-> [max |-> 4, tokens |-> <<"build ", "rule ", "pool ", "default ", "include ", "subninja ", "a", "x", " ", "  ", "=", ":", "|", "||", "|@", "$", "${", "}", "\n",
                                         "\t", "#", "inc", "build.ninja", "$\n", "depth", "command", "phony", "$ ", "$:", "$$", ".", "\r\n", "$^", "ninja_required_version = 1.14\n">>],
+  rulevars |-> [max |-> 6, tokens |-> <<"$command ", "$rspfile_content ", "$description ", "$x ", "$undefined ", "$y ", "text ", "|", "$in ", "$out">>],
   dyndep   |-> [max |-> 5, tokens |-> <<"ninja_dyndep_version", "=", "1", "build ", "out", "o2", ":", "dyndep", "|", "||", " ", "  restat", "\n", "$", "x", "zz", "1.1", "\r\n">>],
   depfile  |-> [max |-> 6, tokens |-> <<"a", " ", "\\", ":", "#", "$", "\n", "\r", "%", "\t", <<128>>, <<0>>>>],
   cl       |-> [max |-> 5, tokens |-> <<"Note: including file: ", "a.h", "\n", "\r", " ", "x.cc", "Program Files", ":", "\\">>],
